@@ -30,7 +30,7 @@ LEVEL_NOTE = ('trusted: CPython ast (structure modulo ctx and documented docstri
 RULE = ('enum: case = (program, node/slice, form, repetitions) or (context, text, accessor); non-trivial = distinct cases where the '
         'round trip was accepted; states = distinct sources seen; traces = round trips compared')
 ASSUMPTIONS = ['cut and put back run with norm=False (the container may pass through a length Python does not allow), self-replacement with norm=True', 'texts containing a line break are not valid line comments']
-BOUNDS = {'quick': '51 programs, all nodes and slices (<= 4 elements), 6 forms (cut/self x fst/ast/src), repetitions 1-3; docstring texts of length <= 3 (+48 crafted) x 6 contexts; comment texts <= 2 x 6 contexts',
+BOUNDS = {'quick': '56 programs, all nodes and slices (<= 4 elements), 6 forms (cut/self x fst/ast/src), repetitions 1-3; docstring texts of length <= 3 (+48 crafted) x 6 contexts; comment texts <= 2 x 6 contexts',
           'thorough': 'comment texts of length <= 3'}
 
 ALPH = ['a', ' ', '"', "'", '\\', '\n', '\t', '{', '#', 'é', '\x00', '\r']
